@@ -460,6 +460,7 @@ MonStep(Hh, B, T, e) ==
         THEN C18_Step(B, T, e.v, LAMBDA a, b : Hh.vrank[a] < Hh.vrank[b], "by_instruction/") ELSE {})
   \cup (IF Has("C04") THEN (IF upd /\ "num" \in DOMAIN e THEN C04_Update(B, T, e.v, e.num, e.out)
                             ELSE IF e.ev = "update" THEN {} ELSE C04_Frame(B, T)) ELSE {})
+  \cup (IF Has("C05") /\ upd /\ "num" \in DOMAIN e THEN C05_Exact(T, e.v, e.num) ELSE {})
   \cup (IF Has("C05") THEN (IF upd THEN C05_Update(B, T, e.v, SumOver(Hh.value, PickedNow(B, T, e), LAMBDA r : Hh.value[r]))
                             ELSE IF e.ev = "update" THEN {} ELSE C05_Frame(B, T)) ELSE {})
   \cup (IF Has("C06") THEN (IF upd THEN C06_Move(B, T, e.v, Hh.dt, IF "num" \in DOMAIN e /\ "rt_now" \in DOMAIN e.num THEN e.num.rt_now ELSE <<>>) \cup C06_Frame(B, T, TRUE, e.v) \cup C06_Arrived(T, Hn.arrived, e.v)
